@@ -2,7 +2,7 @@
   PS.Theorems.Groups — task groups inside the exactness theorem.
 
   `UnorderedTaskGroup` / `OrderedTaskGroup` come with two helper variables each (`task_group_start_<uuid>`,
-  `task_group_end_<uuid>`), which no schedule mentions.  For groups declared at top level, not optional, over declared
+  `task_group_end_<uuid>`), which no schedule mentions.  For groups declared at top level (optional or not), over declared
   mandatory tasks (`State.groupsOK`) whose helpers nothing else mentions (`State.freshGroups`, decidable) they are a
   conservative extension of the problem without them:
 
@@ -191,6 +191,15 @@ theorem consecutive_complete (k : OrdKind) (σ : Sched) (ρ : Env) :
 
 /-! ### the assertion list splits into the problem without its groups and the groups -/
 
+theorem isGroup_operand {c : Constr} (hg : c.isGroup = true) : c.operand = false := by
+  unfold Constr.isGroup at hg
+  simp only [Bool.and_eq_true, Bool.not_eq_true'] at hg
+  exact hg.1
+
+theorem isGroup_direct {c : Constr} (hg : c.isGroup = true) : c.body.direct = false := by
+  unfold Constr.isGroup at hg
+  cases hb : c.body <;> simp [hb, CBody.direct] at hg ⊢
+
 theorem mem_initFmls_groups (cfg : Config) (st : State) (hb : st.buffers = []) (a : Fml) :
     a ∈ initFmls cfg st ↔ (a ∈ initFmls cfg st.noGroups ∨ ∃ c ∈ st.constrs, c.isGroup = true ∧ a ∈ c.asserts) := by
   rw [mem_initFmls_iff, mem_initFmls_iff]
@@ -221,22 +230,22 @@ theorem mem_initFmls_groups (cfg : Config) (st : State) (hb : st.buffers = []) (
     · exact Or.inr (Or.inr (Or.inr (Or.inr (Or.inr (Or.inr (Or.inl h))))))
     · exact Or.inr (Or.inr (Or.inr (Or.inr (Or.inr (Or.inr (Or.inr h))))))
     · obtain ⟨c, hc, hg, ha⟩ := h
-      have hop : c.operand = false := by
-        unfold Constr.isGroup at hg
-        simp only [Bool.and_eq_true, Bool.not_eq_true'] at hg
-        exact hg.1.1
-      exact Or.inr (Or.inr (Or.inl ⟨c, hc, hop, ha⟩))
+      exact Or.inr (Or.inr (Or.inl ⟨c, hc, isGroup_operand hg, ha⟩))
 
 theorem envOf_noGroups (st : State) (σ : Sched) : envOf st.noGroups σ = envOf st σ := rfl
 
 theorem CoreMeaning_noGroups (st : State) (σ : Sched) (b : CBody) : CoreMeaning st.noGroups σ b ↔ CoreMeaning st σ b := by
   cases b <;> exact Iff.rfl
 
-theorem isGroup_asserts {c : Constr} (hg : c.isGroup = true) : c.asserts = c.body.raw c.id := by
-  unfold Constr.isGroup at hg
-  simp only [Bool.and_eq_true, Bool.not_eq_true'] at hg
-  unfold Constr.asserts
-  simp [hg.1.2]
+/-- the assertions of a (possibly optional) group, read under an interpretation -/
+theorem isGroup_asserts {c : Constr} (hg : c.isGroup = true) (ρ : Env) :
+    Sat ρ c.asserts ↔ ((c.optional = true → ρ.b (.applied c.id) = true) → Sat ρ (c.body.raw c.id)) := by
+  by_cases ho : c.optional = true
+  · rw [C10_optional c ho (isGroup_direct hg) ρ]
+    exact ⟨fun h happ => h (happ ho), fun h happ => h (fun _ => happ)⟩
+  · have ho' : c.optional = false := by cases hh : c.optional <;> simp_all
+    rw [C10_mandatory c ho']
+    exact ⟨fun h _ => h, fun h => h (fun hh => absurd hh ho)⟩
 
 theorem objectiveFmls_single (cfg : Config) (st : State) (h : st.objectives.length ≤ 1) : objectiveFmls cfg st = [] := by
   unfold objectiveFmls
@@ -255,8 +264,8 @@ theorem C05_sound_groups (cfg : Config) (st : State) (ρ : Env) (hc : InCoreS st
   intro c hcm hop happ
   by_cases hg : c.isGroup = true
   · have hsat : Sat ρ (c.body.raw c.id) := by
-      intro a ha
-      exact hρ a ((mem_initFmls_groups cfg st hbuf a).2 (Or.inr ⟨c, hcm, hg, by rw [isGroup_asserts hg]; exact ha⟩))
+      have hall : Sat ρ c.asserts := fun a ha => hρ a ((mem_initFmls_groups cfg st hbuf a).2 (Or.inr ⟨c, hcm, hg, ha⟩))
+      exact (isGroup_asserts hg ρ).1 hall happ
     have hS : ∀ t : Task, (schedOf ρ).start t.name = ρ.i (.tStart t.name) := fun _ => rfl
     have hE : ∀ t : Task, (schedOf ρ).end_ t.name = ρ.i (.tEnd t.name) := fun _ => rfl
     cases hb : c.body <;> simp only [Constr.isGroup, hb, Bool.and_false, Bool.false_eq_true] at hg
@@ -301,7 +310,9 @@ theorem C05_complete_groups (cfg : Config) (st : State) (σ : Sched) (hc : InCor
       simp only [Bool.and_eq_true] at hf
       exact (List.all_eq_true.1 hf.1) a h
     exact (eval_congr_fml notGrp _ _ hag a hfresh).1 (h0 a h)
-  · rw [isGroup_asserts hg] at hca
+  · refine (isGroup_asserts hg _).2 ?_ a hca
+    intro happ
+    have happ' : c.optional = true → σ.applied c.id = true := happ
     have hcg : c ∈ st.groups := List.mem_filter.2 ⟨hcm, hg⟩
     have hfind := find_of_nodup_ids st.groups hok.1 c hcg
     have hmem := (List.all_eq_true.1 ((List.all_eq_true.1 hok.2) c hcg))
@@ -321,26 +332,20 @@ theorem C05_complete_groups (cfg : Config) (st : State) (σ : Sched) (hc : InCor
       have e2 : (withGroups st σ (envOf st σ)).i (.tEnd t.name) = (envOf st σ).i (.tEnd t.name) := rfl
       rw [e1, e2, envOf_tStart st σ t hft, envOf_tEnd st σ t hft]
       simp [tStartOf, tEndOf, hs]
-    have hmean := hv.constrs c hcm (by
-      unfold Constr.isGroup at hg
-      simp only [Bool.and_eq_true, Bool.not_eq_true'] at hg
-      exact hg.1.1) (by
-      intro ho
-      unfold Constr.isGroup at hg
-      simp only [Bool.and_eq_true, Bool.not_eq_true'] at hg
-      rw [hg.1.2] at ho; cases ho)
+    have hmean := hv.constrs c hcm (isGroup_operand hg) happ'
+    intro b hb'
     cases hb : c.body <;> simp only [Constr.isGroup, hb, Bool.and_false, Bool.false_eq_true] at hg
     case unorderedGroup ts window len =>
-      rw [hb] at hca hgS hgE hts hmean
-      simp only [CBody.raw, List.mem_singleton] at hca
-      subst hca
+      rw [hb] at hb' hgS hgE hts hmean
+      simp only [CBody.raw, List.mem_singleton] at hb'
+      subst hb'
       simp only [Fml.eval]
       rw [evalAll_iff]
       exact groupBase_complete c.id σ _ ts window len hgS hgE hts hmean
     case orderedGroup ts window len kind =>
-      rw [hb] at hca hgS hgE hts hmean
-      simp only [CBody.raw, List.mem_singleton] at hca
-      subst hca
+      rw [hb] at hb' hgS hgE hts hmean
+      simp only [CBody.raw, List.mem_singleton] at hb'
+      subst hb'
       simp only [Fml.eval]
       rw [evalAll_iff]
       intro f hf
@@ -408,7 +413,7 @@ end PS
 
 namespace PS
 
-/-! ### non-vacuity: a problem with an ordered group without a window and an unordered group with one -/
+/-! ### non-vacuity: a problem with an ordered group without a window and an optional unordered group with one -/
 
 def Groups_exState : State :=
   run [.problem "p" (some 14),
@@ -420,7 +425,7 @@ def Groups_exState : State :=
        .require "A" (.worker "W") false 0 0,
        .require "B" (.worker "W") false 0 0,
        .constr none false (.orderedGroup ["A", "B", "C"] none 9 .lax),
-       .constr none false (.unorderedGroup ["B", "C"] (some (2, 11)) 0),
+       .constr none true (.unorderedGroup ["B", "C"] (some (2, 11)) 0),
        .constr none false (.startAfter "C" 6 false),
        .objective (.flowtime none)]
 
@@ -443,7 +448,7 @@ def Groups_exSched : Sched :=
     end_ := fun n => if n = "A" then 3 else if n = "B" then 5 else if n = "C" then 8 else 0
     dur := fun n => if n = "A" then 3 else if n = "B" then 2 else if n = "C" then 2 else 0
     sel := fun _ _ => false
-    applied := fun _ => false
+    applied := fun _ => true
     dynS := fun _ _ => 0
     dynE := fun _ _ => 0
     horizon := 8 }
@@ -458,5 +463,72 @@ example : Valid Groups_exState
     (schedOf (withGroups Groups_exState Groups_exSched (envOf Groups_exState Groups_exSched))) :=
   have h := fragmentGroupsB_sound ⟨_, rfl⟩ Groups_ex_fragment
   C05_sound_groups {} Groups_exState _ h.1 Groups_ex_model (by decide +kernel)
+
+end PS
+
+namespace PS
+
+/-! ### task groups and several objectives together; declaration order -/
+
+/-- **C05 (exactness with task groups and any number of objectives).** The two conservative extensions compose: the
+    helpers of the groups and the two variables of the weighted combination are set one after the other. -/
+theorem C05_feasible_iff_groups_multi (cfg : Config) (st : State) (hc : InCoreS st.noObj.noGroups)
+    (hok : st.noObj.groupsOK = true) (hfg : st.noObj.freshGroups = true) (hfe : st.freshEquiv = true) :
+    (∃ ρ, Sat ρ (initFmls cfg st) ∧ 0 ≤ ρ.i .horizon) ↔ ∃ σ, Valid st σ := by
+  constructor
+  · rintro ⟨ρ, hρ, hH⟩
+    have h0 : Sat ρ (initFmls cfgP st.noObj) := by
+      rw [initFmls_noObj]; exact multi_restrict cfg st ρ hρ
+    exact ⟨schedOf ρ, (Valid_noObj st _).1 (C05_sound_groups cfgP st.noObj ρ hc h0 hH)⟩
+  · rintro ⟨σ, hv⟩
+    have hv0 := (Valid_noObj st σ).2 hv
+    have h1 : Sat (withGroups st.noObj σ (envOf st.noObj σ)) (initFmls cfgP st) := by
+      rw [← initFmls_noObj cfgP]; exact C05_complete_groups cfgP st.noObj σ hc hok hfg hv0
+    refine ⟨withEquiv st (withGroups st.noObj σ (envOf st.noObj σ)), multi_extend cfg st _ hfe h1, ?_⟩
+    have : (withEquiv st (withGroups st.noObj σ (envOf st.noObj σ))).i .horizon = σ.horizon := by
+      simp [withEquiv, eqvVar, eqvInd]
+      rfl
+    rw [this]
+    exact hv.horizon_nonneg
+
+/-- the executable test for both extensions at once -/
+theorem fragmentGroupsMultiB_sound {st : State} (hr : Reachable st) (h : st.fragmentGroupsMultiB = true) :
+    InCoreS st.noObj.noGroups ∧ st.noObj.groupsOK = true ∧ st.noObj.freshGroups = true ∧ st.freshEquiv = true := by
+  unfold State.fragmentGroupsMultiB State.fragmentGroupsB at h
+  simp only [Bool.and_eq_true] at h
+  have w := reachable_wf st hr
+  exact ⟨fragmentB_sound_wf ⟨w.nodup, w.events, w.req_tasks⟩ h.1.1.1, h.1.1.2, h.1.2, h.2⟩
+
+/-- **C14 (declaration order, with groups).** Two problems with task groups whose valid schedules coincide — two
+    declaration orders of one problem — get the same verdict from the encoder, whatever the configurations. -/
+theorem C14_groups_verdict (cfg cfg' : Config) (st st' : State)
+    (hc : InCoreS st.noGroups) (hok : st.groupsOK = true) (hf : st.freshGroups = true)
+    (hc' : InCoreS st'.noGroups) (hok' : st'.groupsOK = true) (hf' : st'.freshGroups = true)
+    (hsame : ∀ σ, Valid st σ ↔ Valid st' σ) :
+    (∃ ρ, Sat ρ (initFmls cfg st) ∧ 0 ≤ ρ.i .horizon) ↔ (∃ ρ, Sat ρ (initFmls cfg' st') ∧ 0 ≤ ρ.i .horizon) := by
+  rw [C05_feasible_iff_groups cfg st hc hok hf, C05_feasible_iff_groups cfg' st' hc' hok' hf']
+  exact ⟨fun ⟨σ, h⟩ => ⟨σ, (hsame σ).1 h⟩, fun ⟨σ, h⟩ => ⟨σ, (hsame σ).2 h⟩⟩
+
+/-- non-vacuity: the example problem with a second objective -/
+def GroupsMulti_exState : State :=
+  run [.problem "p" (some 14),
+       .task "A" (.fixed 3) false 1 (some 1) (some 9) true 1,
+       .task "B" (.var 1 (some 4) none) false 0 none none true 1,
+       .task "C" (.fixed 2) false 0 none none true 1,
+       .worker "W" 1 (.const 0),
+       .require "A" (.worker "W") false 0 0,
+       .require "B" (.worker "W") false 0 0,
+       .constr none false (.orderedGroup ["A", "B", "C"] none 9 .lax),
+       .indicator (.tardiness (some ["A"])),
+       .objective (.flowtime none),
+       .objective (.minimizeIndicator 0 3)]
+
+example : GroupsMulti_exState.groups.length = 1 ∧ GroupsMulti_exState.objectives.length = 2 := by decide +kernel
+
+theorem GroupsMulti_ex_fragment : GroupsMulti_exState.fragmentGroupsMultiB = true := by decide +kernel
+
+example : (∃ ρ, Sat ρ (initFmls {} GroupsMulti_exState) ∧ 0 ≤ ρ.i .horizon) ↔ ∃ σ, Valid GroupsMulti_exState σ :=
+  have h := fragmentGroupsMultiB_sound ⟨_, rfl⟩ GroupsMulti_ex_fragment
+  C05_feasible_iff_groups_multi {} GroupsMulti_exState h.1 h.2.1 h.2.2.1 h.2.2.2
 
 end PS
